@@ -261,6 +261,12 @@ impl PngData {
             .iter()
             .filter(|c| matches!(&c.name, b"bKGD" | b"hIST" | b"tRNS" | b"fcTL"))
         {
+            // A histogram is only valid alongside the palette it belongs to
+            if &chunk.name == b"hIST"
+                && !matches!(self.raw.ihdr.color_type, ColorType::Indexed { .. })
+            {
+                continue;
+            }
             write_png_block(&chunk.name, &chunk.data, &mut output);
             if &chunk.name == b"fcTL" {
                 sequence_number += 1;
